@@ -386,7 +386,7 @@ def run_shard(ctx, spec):
         acc.info["sweep_exhaustive"] = True
     else:
         route = spec["route"]
-        strat = G.envelope_s(depth=spec["depth"])
+        strat = G.envelope_s(depth=spec["depth"], max_auth=3 if spec["i"] % 3 == 0 else 2)
         run_given(
             ctx, acc, "gen", strat,
             lambda d, a: judge(d["desc"], a, ctx, route=d["route"], check="gen"),
